@@ -31,11 +31,15 @@ def run_demo():
         r = sh(f"git apply {demo_diff}")
         if r.returncode != 0:
             return None, "demo patch does not apply: " + r.stderr
-        m = re.search(r"cargo test[^&|;]*?--offline\s+([A-Za-z0-9_:]+)", meta.get("demo_cmd", ""))
-        flt = m.group(1) if m else ""
-        r = sh(f"cargo test --offline {flt} 2>&1 | grep -E 'test result|error(\\[|:)' | head -3")
+        # run the cargo test invocation of demo_cmd verbatim (last command of the && chain)
+        cmd = meta.get("demo_cmd", "").split("&&")[-1].strip()
+        if "cargo test" not in cmd:
+            cmd = "CARGO_NET_OFFLINE=true cargo test --offline"
+        r = sh(cmd + " 2>&1 | grep -E 'test result|error(\\[|:)'")
         txt = r.stdout.strip()
-        passed = ("test result: ok" in txt) and ("0 passed" not in txt)
+        lines = [l for l in txt.splitlines() if l.startswith("test result")]
+        npass = sum(int(re.search(r"(\d+) passed", l).group(1)) for l in lines if re.search(r"(\d+) passed", l))
+        passed = bool(lines) and all("test result: ok" in l for l in lines) and npass > 0 and "error" not in txt
         return passed, txt
     elif os.path.exists(demo_sh):
         r = sh(f"bash {demo_sh} 2>&1 | tail -3")
